@@ -719,3 +719,8 @@ M('C02', 'validate-no-executed-event', GW, '            event::execute_message(&
 M('C11', 'token-add_minter-noop', TOK, '        env.storage()\n            .instance()\n            .set(&DataKey::Minter(minter.clone()), &());\n\n        extend_instance_ttl(env);\n\n        event::add_minter(env, minter);', '        extend_instance_ttl(env);\n\n        event::add_minter(env, minter);', 'C11.R4')
 M('C04', 'remove_trusted_chain-noop', ITS, '        env.storage().persistent().remove(&key);\n\n        TrustedChainRemovedEvent', '        TrustedChainRemovedEvent', 'C04.R2')
 M('C10', 'from_vec-inverted', ABI, '    if value.is_empty() {\n        None\n    } else {\n        Some(Bytes::from_slice(env, value))\n    }', '    if !value.is_empty() {\n        None\n    } else {\n        Some(Bytes::from_slice(env, value))\n    }', 'C10.R8')
+M('C12', 'overflow-checks-off', 'Cargo.toml', 'overflow-checks = true', 'overflow-checks = false', 'C12.R2')
+M('C03', 'overflow-checks-off-c03', 'Cargo.toml', 'overflow-checks = true', 'overflow-checks = false', 'C03.R2')
+M('C01', 'constructor-forgets-domain-separator', AUTH, '    env.storage()\n        .instance()\n        .set(&DataKey::DomainSeparator, &domain_separator);\n', '    let _ = &domain_separator;\n', 'C01.R5')
+M('C05', 'executable-call-swaps-id-and-chain', ITS, '                        &source_chain,\n                        &message_id,\n                        &source_address,\n                        &payload,', '                        &message_id,\n                        &source_chain,\n                        &source_address,\n                        &payload,', 'C05.R5')
+M('C12', 'approve-zero-with-past-expiry-refused', TOK, '            !(amount > 0 && expiration_ledger < env.ledger().sequence()),', '            !(amount >= 0 && expiration_ledger < env.ledger().sequence()),', 'C12.R5')
